@@ -606,6 +606,8 @@ func (e *Env) Exec(op Op) Result {
 		}
 
 		return res(err, "")
+	case "TempDir":
+		return res(nil, v.TempDir())
 	case "Exists":
 		ok, err := avfs.Exists(v, op.P)
 
